@@ -530,8 +530,15 @@ def run_case(cfg):
     nops = 0
     specs, bad = idx_specs(world)
     from xitorch import LinearOperator
+    def _make(ix):
+        # "ngc": the operator is constructed while the caller has switched gradient recording off (a numerical
+        # Hessian / Jacobian inside torch.no_grad(), or inside a custom backward)
+        if cfg.get("ngc"):
+            with torch.no_grad():
+                return world.make(ix)
+        return world.make(ix)
     for name, idxs, expect in specs:
-        o = call(world.make, idxs)
+        o = call(_make, idxs)
         ck.n += 1
         if o.exc is not None:
             ck.report(exc_fail(o.exc), {"idxs": name}, idxs=name, product="construct")
@@ -608,6 +615,11 @@ def cases(tier, seed):
                     for o in ("s", "2", "2x3"):
                         out.append(_fcfg("jac", kind, shapes, o, extra, vs, not quick))
                     out.append(_fcfg("hess", kind, shapes, "s", extra, vs, not quick))
+                    if extra == "none" and vs == 0 and (not quick or tuple(shapes) in extra_pairs):
+                        for (md, oo) in (("jac", "2"), ("hess", "s")):
+                            c = _fcfg(md, kind, shapes, oo, extra, vs, not quick)
+                            c["ngc"] = 1
+                            out.append(c)
     # simplest first
     out.sort(key=lambda c: (c["vseed"] != 0, c["nargs"], c["extra"] != "none"))
     return out
